@@ -42,9 +42,9 @@ Lemma single_source_alloc (lm : bool) (c : Col) : col_ok c -> col_dom c ->
 Proof.
   intros Hok Hd H1 H2 H3. unfold used_src, used_src_f, col_dom, c_p in *. rewrite H1, H2, H3 in *. cbn [c_src].
   replace (c_pv c + 0 + 0 + 0) with (c_pv c) in * by ring.
-  destruct (qltb_spec (qfrac 1 1000) (c_pv c)) as [G|G].
+  destruct (qltb_spec 0 (c_pv c)) as [G|G].
   - field. intro Z. rewrite Z in G. qlra.
-  - destruct Hd as [Z|Z]; [|contradiction]. rewrite Z.
+  - destruct Hd as [Z|Z]; [|exfalso; apply G; revert Z; generalize (c_pv c); intros x Z; qlra]. rewrite Z.
     assert (M : qmin (c_u c) 0 = 0) by (destruct Hok; qlra). rewrite M. ring.
 Qed.
 
